@@ -14,15 +14,18 @@
         (on bound fids), Tauth, auth-fid attach, unhandled type -- is an exact no-op of the model with
         that errno: same state, no backend call, tape untouched ([C04_refines_refusals]);
       - the fid table changes only at the fids the request names ([C04_other_fids_untouched]).
-    NOT PROVED (hence [C04_refines_partial]): for requests that pass the refusal table, that the
-    bindings of the fids the request names change exactly as [post_ok]/[post_fail] say (Twalk,
-    Twalkgetattr, Tattach, Txattrwalk, Tlcreate bind; Tlopen, Txattrcreate, Twrite update; Tclunk,
-    Tremove unbind) and that no other fid's view changes except by fencing.  These branches are
-    checked by the differential on every run (Server/Cases.v [c04_step], [step_agrees]).
-    (The former exclusion of renames cut short by a panic is gone with fix edcb06d.) *)
+      - the whole-request refinement [C04_refines] for EVERY request kind, state, tape (errors, EOF,
+        panics at any call index): for some backend outcome and fence, the reply class, the binding of
+        every fid of every connection and the negotiated sizes after [step] are those of [spec_step]
+        (Twalk / Twalkgetattr / Tattach / Txattrwalk / Tlcreate bind a fidRef allocated by the request
+        whose view is the prescribed one; Tclunk / Tremove unbind -- also when refused by a guard or
+        when the backend fails; every other fid's view changes only by fencing), under the invariant
+        [Inv2] = ledger + injective fid table + structural invariant of the path tree, which holds
+        after every history ([C04_refines_every_history]).  Proofs: Server/ViewFrame.v (view frame),
+        Server/RefineBind.v (binders / unbinders), Server/RefineAll.v (assembly). *)
 From Coq Require Import NArith ZArith List String Bool.
 From P9V Require Import Base.Str gen.ConstGen gen.HandlerGen Server.State Server.Msg Server.SessionSpec Server.Handlers
-  Server.Summaries Server.NameProofs Server.SummaryProofs Server.SpecProofs Server.FaultProofs Server.Ledger Server.Refine Server.TableFrame Server.RefineOk Server.TableInj.
+  Server.Summaries Server.NameProofs Server.SummaryProofs Server.SpecProofs Server.FaultProofs Server.Ledger Server.Refine Server.TableFrame Server.RefineOk Server.TableInj Server.ViewFrame Server.RefineBind Server.RefineAll.
 Import ListNotations.
 Open Scope N_scope.
 
@@ -217,27 +220,48 @@ Theorem C04_refines_covered_every_history : forall h c m tape,
 Proof. exact refines_covered_every_history. Qed.
 Print Assumptions C04_refines_covered_every_history.
 
-(** [covered]: Tversion, Tflush, Tauth, unhandled types, Tgetattr, Tsetattr, Tlopen, Tread, Twrite,
-    Treaddir, Tfsync, Tstatfs, Tlock, Treadlink, Tmkdir, Tmknod, Tsymlink, Tlink, Txattrcreate (with
-    their Tu* variants) -- refused or not, all tapes (errors, EOF, panics).
-    NOT YET COVERED by a whole-request refinement (their refusals are, by [C04_refines_refusals]; their
-    table frame is, by [C04_other_fids_untouched]): Tclunk, Tremove, Twalk, Twalkgetattr, Tattach,
-    Tlcreate, Txattrwalk, Tunlinkat, Trename, Trenameat. *)
-Theorem C04_refines_partial : forall s c m tape,
-  Ledger s -> tinj s ->
-  (covered m = true -> refines_at s c m tape) /\
+(** [covered] (first rounds): Tversion, Tflush, Tauth, unhandled types, Tgetattr, Tsetattr, Tlopen, Tread,
+    Twrite, Treaddir, Tfsync, Tstatfs, Tlock, Treadlink, Tmkdir, Tmknod, Tsymlink, Tlink, Txattrcreate.
+    The remaining ten (Tclunk, Tremove, Twalk, Twalkgetattr, Tattach, Tlcreate/Tucreate, Txattrwalk,
+    Tunlinkat, Trename, Trenameat) need the structural invariant [sinv] of the path tree:
+    unallocated path nodes are not deleted, child nodes are allocated, registered fidRefs are allocated
+    and have a parent. *)
+Theorem C04_Inv2_init : Inv2 init_state.
+Proof. exact inv2_init. Qed.
+Theorem C04_Inv2_step : forall s c m tape, Inv2 s -> Inv2 (fst (fst (fst (step s c m tape)))).
+Proof. exact inv2_step. Qed.
+Theorem C04_Inv2_every_history : forall h, Inv2 (Refine.run init_state h).
+Proof. exact inv2_every_history. Qed.
+Print Assumptions C04_Inv2_every_history.
+
+(** the full refinement: every request, refused or not, every tape *)
+Theorem C04_refines : forall s c m tape,
+  Inv2 s ->
+  exists o fence,
+    rclass (snd (fst (fst (step s c m tape)))) = snd (spec_step (abs_state s) c m o fence) /\
+    (forall c' f', a_fids (abs_state (fst (fst (fst (step s c m tape))))) c' f' = a_fids (fst (spec_step (abs_state s) c m o fence)) c' f') /\
+    (forall c', a_neg (abs_state (fst (fst (fst (step s c m tape))))) c' = a_neg (fst (spec_step (abs_state s) c m o fence)) c').
+Proof. exact refines_all. Qed.
+Print Assumptions C04_refines.
+
+Theorem C04_refines_every_history : forall h c m tape, refines_at (Refine.run init_state h) c m tape.
+Proof. exact refines_every_history. Qed.
+Print Assumptions C04_refines_every_history.
+
+(** the exact no-op half and the table frame, kept as separate statements *)
+Theorem C04_refusals_and_frame : forall s c m tape,
+  Ledger s ->
   (forall e, spec_reject (abs_state s) c m = Some e ->
              (forall f, m = Tremove f -> tlookup (c, f) (st_fids s) = None) ->
              step s c m tape = (s, RErr e, [], tape)) /\
   (forall c' f', touches c m (c', f') = false ->
                  tlookup (c', f') (st_fids (fst (fst (fst (step s c m tape))))) = tlookup (c', f') (st_fids s)).
 Proof.
-  intros s c m tape HL Hinj. split; [|split].
-  - intros Hc. apply refines_covered; assumption.
+  intros s c m tape HL. split.
   - intros e Hr Hrm. apply refines_refusals; assumption.
   - intros c' f' HT. apply other_fids_untouched; assumption.
 Qed.
-Print Assumptions C04_refines_partial.
+Print Assumptions C04_refusals_and_frame.
 
 (** ---- the source ---- *)
 Theorem C04_source_matches_model : handler_traces = model_traces.
